@@ -87,7 +87,7 @@ def to_dev(spec, recorded):
 def strategy(max_dev=6, walk=True, pct=True, max_step=600):
     from hypothesis import strategies as st
     common = {"base": st.sampled_from(["spawned-first", "continue"]), "pick": st.sampled_from(["lowest", "highest", "rr"]),
-              "deliver": st.sampled_from(["late", "late", "early"]), "gran": st.sampled_from(["line", "line", "op"])}
+              "deliver": st.sampled_from(["late", "late", "early"]), "gran": st.sampled_from(["line", "line", "attr"])}
     # runs have 100..5000 steps depending on the configuration: deviation points are drawn at three scales
     step = st.one_of(st.integers(1, max(50, max_step // 3)), st.integers(1, max_step), st.integers(1, 5 * max_step))
     devs = st.fixed_dictionaries(dict(common, kind=st.just("dev"),
